@@ -495,8 +495,10 @@ def synthetic_event_files(chk, g, d, drv, jobs, n_files):
     for k in range(n_files):
         n = int(g.choice([0, 1, 5, 300, 2000]))
         start = float(int(g.integers(0, 3 * 10 ** 8)) + int(g.integers(0, 64)) / 64.) if g.uniform() < 0.7 else float(g.uniform(0., 3.e8))
+        if k == 0:
+            start, n = 0., 300               # a run that starts at the mission reference date exactly (MET 0.0): its products carry TSTART = 0
         # around a leap day / year end now and then
-        if g.uniform() < 0.3:
+        elif g.uniform() < 0.3:
             day = (datetime.datetime(int(g.choice([2020, 2024, 2023, 2021])), int(g.choice([2, 12])), 28) - EPOCH).days
             start = float(day * 86400 + int(g.integers(0, 4 * 86400)) + int(g.integers(0, 64)) / 64.)
         duration = float(int(g.integers(100, 200000)) + int(g.integers(0, 64)) / 64.) if g.uniform() < 0.7 else float(g.uniform(100., 1.e5))
